@@ -112,7 +112,7 @@ def run(ck):
     _selftest()
     g, r = objcheck.graph_from_tlc(ck, ["tick"], "EventDriven", "EventDriven_q.cfg" if q else "EventDriven_t.cfg",
                                    workers=4 if q else 8, timeout=1200)
-    for cfg in (("EventDriven_control3.cfg", "EventDriven_control4.cfg") if q else
+    for cfg in ((("EventDriven_control3.cfg", "EventDriven_control4.cfg")[ck.seed % 2],) if q else
                 ("EventDriven_control1.cfg", "EventDriven_control2.cfg", "EventDriven_control3.cfg", "EventDriven_control4.cfg")):
         rc = ck.run_tlc(["tick"], "EventDriven", cfg, workers=2, timeout=300)
         if rc.ok or rc.violated != "WakeNoLaterThan":
@@ -133,7 +133,7 @@ def run(ck):
 
     hs = g.edge_cover(rng=ck.rng)
     n_cover = len(hs)
-    walks, wl = (300, 40) if q else (2000, 60)
+    walks, wl = (300, 40) if q else (1500, 60)
     hs += g.random_walks(ck.rng, walks, wl)
     # targeted same-instant sequences: run(reports no progress)@T -> request / notification @T -> dispatch
     # (the statement does not let the obligation depend on what a run reported)
@@ -146,8 +146,8 @@ def run(ck):
                     if nxt:
                         trip.append((s0, a1, s1, a2, s2) + ck.rng.choice(nxt))
     n_trip_all = len(trip)
-    if len(trip) > (300 if q else 6000):
-        trip = ck.rng.sample(trip, 300 if q else 6000)
+    if len(trip) > (300 if q else 4000):
+        trip = ck.rng.sample(trip, 300 if q else 4000)
     for s0, a1, s1, a2, s2, a3, s3 in trip:
         root, steps = g.path_to(s0)
         hs.append(g.history(root, list(steps) + [(a1, s1), (a2, s2), (a3, s3)]))
@@ -184,7 +184,8 @@ def run(ck):
         B = 5000
         cfgd = {"mode": mode, "notify": notify, "tail_idle": ci % 2 == 0}    # what runs beyond the script report
         # the complete edge cover for the first combination; a seeded sample of it (+ all walks) for the others when it is large
-        hs = hs_all if (ci == 0 or n_cover <= 6000) else ck.rng.sample(hs_all[:n_cover], 6000) + hs_all[n_cover:]
+        cap = 2000 if q else 4000
+        hs = hs_all if (ci == 0 or n_cover <= cap) else ck.rng.sample(hs_all[:n_cover], cap) + hs_all[n_cover:]
         n_replayed += len(hs)
         for i in range(0, len(hs), B):
             out = core.harness(binary, "eventdriven", {"config": cfgd, "histories": hs[i:i + B]})
